@@ -101,27 +101,57 @@ def pipe_result_blocks(ctx, k):
             elif kind == 'enum' and rv['k'] == 'agg' and rv.get('adt') == ty:
                 v = [str(x['discr']) for x in F.adts[ty]['variants'] if x['name'] == rv.get('variant')]
                 v = v[0] if v else None
-            if v is None and rv['k'] == 'use' and rv['op']['k'] in ('copy', 'move') and not rv['op']['pl']['p']:
+            if v is None and rv['k'] == 'use' and rv['op']['k'] in ('copy', 'move'):
                 # `let keep = if .. { false } else { true }; return keep;`: the blocks that give the named temporary its literal value answer
-                x = rv['op']['pl']['l']
-                lits = []
-                okx = True
-                for bb2, b2 in enumerate(k.blocks):
-                    if b2['cleanup']:
-                        continue
-                    for s2 in b2['stmts']:
-                        if s2['k'] == 'assign' and not s2['pl']['p'] and s2['pl']['l'] == x:
-                            rv2 = s2['rv']
-                            v2 = None
-                            if kind == 'bool' and rv2['k'] == 'use' and rv2['op']['k'] == 'const':
-                                v2 = str(rv2['op'].get('val'))
-                            elif kind == 'enum' and rv2['k'] == 'agg' and rv2.get('adt') == ty:
-                                v2 = [str(x_['discr']) for x_ in F.adts[ty]['variants'] if x_['name'] == rv2.get('variant')]
-                                v2 = v2[0] if v2 else None
-                            if v2 is None:
-                                okx = False
-                            else:
-                                lits.append((bb2, v2))
+                # (followed through plain moves, and through `Poll::Ready(x)` / `(r as Ready).0` pairs left by a spliced await)
+                def lit_defs(pl, depth=0):
+                    if depth > 8:
+                        return None
+                    x = pl['l']
+                    proj = [p_['k'] for p_ in pl['p']]
+                    outl = []
+                    found = False
+                    for bb2, b2 in enumerate(k.blocks):
+                        if b2['cleanup']:
+                            continue
+                        for s2 in b2['stmts']:
+                            if s2['k'] == 'assign' and not s2['pl']['p'] and s2['pl']['l'] == x:
+                                found = True
+                                rv2 = s2['rv']
+                                if proj == ['downcast', 'field']:
+                                    # the single field of a wrapper value built from one operand
+                                    if rv2['k'] == 'agg' and len(rv2.get('ops', [])) == 1 and rv2['ops'][0]['k'] in ('copy', 'move'):
+                                        sub = lit_defs(rv2['ops'][0]['pl'], depth + 1)
+                                    elif rv2['k'] == 'agg' and len(rv2.get('ops', [])) == 1 and rv2['ops'][0]['k'] == 'const' and kind == 'bool':
+                                        sub = [(bb2, str(rv2['ops'][0].get('val')))]
+                                    else:
+                                        sub = None
+                                    if sub is None:
+                                        return None
+                                    outl += sub
+                                    continue
+                                if proj:
+                                    return None
+                                if kind == 'bool' and rv2['k'] == 'use' and rv2['op']['k'] == 'const':
+                                    outl.append((bb2, str(rv2['op'].get('val'))))
+                                elif kind == 'enum' and rv2['k'] == 'agg' and rv2.get('adt') == ty:
+                                    v2 = [str(x_['discr']) for x_ in F.adts[ty]['variants'] if x_['name'] == rv2.get('variant')]
+                                    if not v2:
+                                        return None
+                                    outl.append((bb2, v2[0]))
+                                elif rv2['k'] == 'use' and rv2['op']['k'] in ('copy', 'move'):
+                                    sub = lit_defs(rv2['op']['pl'], depth + 1)
+                                    if sub is None:
+                                        return None
+                                    outl += sub
+                                else:
+                                    return None
+                        t2 = b2['term']
+                        if t2 and t2['k'] == 'call' and not t2['dest']['p'] and t2['dest']['l'] == x:
+                            return None
+                    return outl if found else None
+                lits = lit_defs(rv['op']['pl'])
+                okx = lits is not None
                 if not okx or not lits:
                     return None
                 for bb2, v2 in lits:
@@ -1949,13 +1979,8 @@ def c16(ctx):
             out.append(bad(R, 'PipeStream::drop|sets-closed', 'dropping the output stream does not (always) mark the core closed: the producer keeps reading its input', fn=dr0.name))
     # whenever the producer finds the core closed it stops (returns false)
     key = 'pipe|closed-means-stop'
-    closed_true = []
-    for bb, b in enumerate(k.blocks):
-        t = b['term']
-        if t and t['k'] == 'switch' and not b['cleanup'] and t['discr']['k'] != 'const':
-            e = k.expr_of_local(t['discr']['pl']['l'])
-            if render(e).endswith('.closed') and 'lock(' in render(e):
-                closed_true.append(t['otherwise'])
+    from .ordq import field_test_edges
+    closed_true = [te for _, te in field_test_edges(k, 'closed', 'lock(')]
     prb = pipe_result_blocks(ctx, k)
     one_blocks, zero_blocks = prb if prb else (set(), set())
 
